@@ -4,9 +4,16 @@ CFG = {
                   "configurations, unbounded candidates and steps, restarts and closes included — C01_no_false_connect (every "
                   "Succeeded / selected pair of a full agent lies on an address pair reachable in both directions; Connected or "
                   "Disconnected imply a selected pair) and C01_unreachable_never_connects (no reachable candidate address pair => "
-                  "never a selected pair, never cbState connected / cbPair). LIVENESS (C01_converges) and the MIRROR theorem are NOT "
-                  "proved yet: convergence and mirror images are checked by the spec monitor on every generated fair suffix of the "
-                  "correspondence run (differential execution of the model against two real agents over an in-memory hub).",
+                  "never a selected pair, never cbState connected / cbPair). LIVENESS is proved PARTIALLY: the progress steps of one "
+                  "agent for all states (C01_progress_*), and C01_converges_round_partial / C01_converges_noisy_rounds_partial — from "
+                  "EVERY state reached by ANY prefix (loss, duplication, reordering, restarts) that satisfies the decidable start "
+                  "condition ReadyD, for all topologies (unbounded candidates, NAT, one-way links), both agents have a selected pair "
+                  "and are Connected after at most roundBound + 1 = (nomTime - first tick) / minInterval + 2 canonical fair rounds "
+                  "(clock advance to the controlling agent's next tick, then three in-order waves of deliveries), also with "
+                  "arbitrary extra deliveries / duplications before every round; with C01_mirror_partial the pairs are mirror images "
+                  "when each side has one local address. The FULL liveness statement C01_converges (every fair schedule) and the "
+                  "full MIRROR theorem are NOT proved: convergence and mirror images on arbitrary generated fair suffixes are checked "
+                  "by the spec monitor of the correspondence run (differential execution of the model against two real agents).",
     "level_note": "Trusted: Lean kernel (axioms propext/Classical.choice/Quot.sound); the hand-written models IceModel.AgentCore / "
                   "IceModel.Sys2, tied to the code by the differential correspondence of component `agent` (two real agents under "
                   "synctest, NAT, one-way links, loss, duplication, restarts) — bounded by generator quality; the harness. "
@@ -26,5 +33,9 @@ CFG = {
                      "closed system: agents receive datagrams only from the hub (no forged traffic)",
                      "topology (NAT mapping, reachability matrix) is fixed during a session in the theorems"],
     "assumptions": ["LocalsSane: unmapped (mapped x) = x for every address a local candidate is added at",
-                    "safety only; liveness (C01_converges) and C01_mirror remain to be proved"],
+                    "liveness only along the canonical fair rounds (+ extra deliveries/duplications between rounds) from ReadyD "
+                    "states: UDP4 candidates with pairwise distinct addresses per agent, distinct passwords, no remote-IP filter hit, "
+                    "timeouts beyond the horizon, controlling agent without selected pair / pending USE-CANDIDATE transaction, "
+                    "controlling agent not answerable from its own addresses, the controlled agent's local addresses still current "
+                    "(notes/C01-live.md); C01_converges for every fair schedule and C01_mirror remain to be proved"],
 }
